@@ -44,7 +44,7 @@ package liveness
 //@   assigns nothing
 
 //@ func (blt *CachedLivenessTester) Init(conf *Config) error
-//@   requires blt != nil && conf != nil
+//@   requires blt != nil && conf != nil && blt.ipCacheLive == nil && blt.ipCacheNonLive == nil
 //@   ensures @C18: result == nil && conf.CacheDuration != "" && conf.CacheCapacity > 0 ==> typeis(blt.ipCacheLive, *lruCache) && unboxptr(blt.ipCacheLive, *lruCache).lruSize == conf.CacheCapacity
 //@   ensures @C18: result == nil && conf.CacheDurationNonLive != "" && conf.CacheCapacityNonLive > 0 ==> typeis(blt.ipCacheNonLive, *lruCache) && unboxptr(blt.ipCacheNonLive, *lruCache).lruSize == conf.CacheCapacityNonLive
 // C19: for every accepted configuration each cache is absent or a usable object (never a typed nil pointer, which the
